@@ -295,12 +295,43 @@ Qed.
 Definition pid (p : spose) : Z := match p with PId i => i | PMix _ _ _ _ _ => -1 end.
 Definition interp_sym (t lo : Z) (pl : spose) (hi : Z) (ph : spose) : spose := PMix t lo (pid pl) hi (pid ph).
 
+(* monomorphic abbreviations used by the generated shards (cheap to parse and type-check) *)
+Definition sop := top string spose.
+Definition sout := out string spose.
+Definition tag_ids {A} (l : list (A * Z)) : list (A * spose) := map (fun e => (fst e, PId (snd e))) l.
+Definition SP (t : Z) (d : string) (i : Z) : sop := M (SetPair t d (PId i)).
+Definition ST (t : Z) (l : list (string * Z)) : sop := M (SetTs t (tag_ids l)).
+Definition DP (t : Z) (d : string) : sop := M (DelPair t d).
+Definition DT (t : Z) : sop := M (DelTs t).
+Definition HT (t : Z) : sop := M (HasTs t).
+Definition HP (t : Z) (d : string) : sop := M (HasPair t d).
+Definition GP (t : Z) (d : string) : sop := M (GetPair t d).
+Definition GT (t : Z) : sop := M (GetTs t).
+Definition PR : sop := M Pairs.
+Definition LN : sop := M Len.
+Definition BD : sop := M Bad.
+Definition SO : sop := Sorted.
+Definition TL : sop := TsLen.
+Definition IP (t : Z) (d : string) (mi : Z) : sop := Interp t d mi.
+Definition ON : sout := ONone.
+Definition OB (b : bool) : sout := OBool b.
+Definition OV (i : Z) : sout := OVal (PId i).
+Definition OM (t lo ilo hi ihi : Z) : sout := OVal (PMix t lo ilo hi ihi).
+Definition OD (l : list (string * Z)) : sout := ODict (tag_ids l).
+Definition OP (l : list (Z * string * Z)) : sout := OPairs (tag_ids l).
+Definition OI (z : Z) : sout := OInt z.
+Definition OL (l : list Z) : sout := OList l.
+Definition EK : sout := OKeyErr.
+Definition ET : sout := OTypeErr.
+Definition EI : sout := OIndexErr.
+Definition EO : sout := OOtherErr.
+
 (* one run = a fresh container, a list of operations, and what the implementation answered to each *)
 Inductive ckind := KTraj | KRec.
 Record run := {
   r_kind : ckind;
-  r_ops : list (top string spose);
-  r_outs : list (out string spose)
+  r_ops : list sop;
+  r_outs : list sout
 }.
 Record case := {
   c_maxsize : Z;                 (* sys.maxsize of the interpreter (initial _last_timestamp) *)
@@ -308,7 +339,7 @@ Record case := {
   c_digits : list (Z * Z)        (* (n, computation.num_digits(n)) as observed *)
 }.
 
-Definition mops_of (ops : list (top string spose)) : option (list (mop string spose)) :=
+Definition mops_of (ops : list sop) : option (list (mop string spose)) :=
   fold_right (fun o acc => match o, acc with M mo, Some l => Some (mo :: l) | _, _ => None end) (Some []) ops.
 
 Definition check_run (maxsize : Z) (r : run) : bool :=
